@@ -17,7 +17,8 @@ pub open spec fn seq_has<'a, T>(s: Seq<&'a T>, x: T) -> bool {
 }
 impl<'a, T> SeqIter<&'a T> {
     /// itertools: `contains(&mut self, query) -> bool`: true iff some item of the iterator equals the
-    /// query (`==` of the item type; for the index types the derived, structural one: A-derive)
+    /// query (`==` of the item type; for the index types the derived, structural one: A-derive).
+    /// Declared with `self` by value (the only call site applies it to the temporary `m.keys()`).
     #[verifier::external_body]
     pub fn contains(self, query: &T) -> (r: bool)
         ensures r == seq_has(self@, *query),
